@@ -790,6 +790,32 @@ impl Operator<i64> for SV {
     }
 }
 
+/// makes a vector of `n` consecutive values
+pub struct SVn(pub usize);
+impl Composable for SVn {}
+impl Operator<i64> for SVn {
+    type Output = Vec<i64>;
+    type Error = SErr;
+    fn apply<R: Rng + ?Sized>(&self, x: i64, _: &mut R) -> Result<Vec<i64>, SErr> {
+        Ok((0..self.0 as i64).map(|i| x + i).collect())
+    }
+}
+/// a probe with a 4 KiB output (so that anything sized in bytes reaches its limit after few elements)
+pub struct SPwide {
+    fail_on_call: Option<u32>,
+    calls: std::cell::Cell<u32>,
+}
+impl Composable for SPwide {}
+impl Operator<i64> for SPwide {
+    type Output = [u64; 512];
+    type Error = SErr;
+    fn apply<R: Rng + ?Sized>(&self, x: i64, _: &mut R) -> Result<[u64; 512], SErr> {
+        let n = self.calls.get();
+        self.calls.set(n + 1);
+        if self.fail_on_call == Some(n) { Err(SErr(9)) } else { Ok([x as u64; 512]) }
+    }
+}
+
 fn std_chain(e: &(dyn StdError + 'static)) -> Vec<String> {
     let mut out = vec![e.to_string()];
     let mut cur = e.source();
@@ -878,6 +904,30 @@ fn static_chain_case(kind: u8, failing: u8, call: u32) -> Result<bool, Fail> {
                 Ok(_) => Ok(false),
             }
         }
+        6 => {
+            // a long vector: the failing element's index is reported whatever its magnitude
+            let at = [140_000u32, 131_072, 65_536, 70_001][call as usize % 4];
+            let op = SVn(150_000).then_map(SP::new(1, if failing == 1 { Some(at) } else { None }));
+            match op.apply(5, &mut rng) {
+                Err(e) => judge_chains("make_vec(150000).then_map(p1)", &e, 3, failing, Some(at as usize)).map(|()| true),
+                Ok(v) => {
+                    ensure!(v.len() == 150_000 && v[149_999] == 5 + 149_999 + 1, "compose/value", "mapping a vector of 150000 elements gave {} elements", v.len());
+                    Ok(false)
+                }
+            }
+        }
+        7 => {
+            // wide outputs (4 KiB each)
+            let at = [300u32, 256, 599, 257][call as usize % 4];
+            let op = SVn(600).then_map(SPwide { fail_on_call: if failing == 1 { Some(at) } else { None }, calls: std::cell::Cell::new(0) });
+            match op.apply(5, &mut rng) {
+                Err(e) => judge_chains("make_vec(600).then_map(wide probe)", &e, 3, 9, Some(at as usize)).map(|()| true),
+                Ok(v) => {
+                    ensure!(v.len() == 600 && v[599][0] == 5 + 599, "compose/value", "mapping a vector of 600 elements gave {} elements", v.len());
+                    Ok(false)
+                }
+            }
+        }
         _ => {
             // a plain operator under map, and a map nested in a map
             let op = SV.then_map(SP::new(1, f(1)));
@@ -891,7 +941,7 @@ fn static_chain_case(kind: u8, failing: u8, call: u32) -> Result<bool, Fail> {
 
 fn static_error_chains(ctx: &mut Ctx) {
     let mut cases = vec![];
-    for kind in 0u8..6 {
+    for kind in 0u8..8 {
         for failing in 0u8..4 {
             for call in 0u32..3 {
                 cases.push((kind, failing, call));
